@@ -12,10 +12,10 @@ pub fn prop() -> Prop {
     Prop {
         id: "C01",
         level: "model_checking",
-        rule: "streams of <=2 values over the 80-value universe U1 and <=3 (thorough <=6) over a 12-value core, every legal separator (whitespace menu or touching; 5 kinds for triples, 3 for 4- and 5-streams, 2 for 6-streams), spelling deviations k=0,1 (thorough <=3, and 4 on the core) per value from the whitespace/escape/number menus; size ladders to 8193 bytes/members/values; a decimal grid of 36 mantissas (thorough ~1150: every 1..3-digit mantissa and the neighbours of 2^24..2^64 and 10^15..10^19) x every exponent -345..310 x 2 spellings; a position grid: 13 atoms (all types, exponent forms, a 20-digit integer, a string spelled like the start of a literal) at every position (only/first/last/middle element or member) of every nesting shape of depth <=3 (thorough 4), members named by each of 10 names (empty, literal-like, number-like, with blank, quote, line feed, non-ASCII), compact and indented, and as `value atom value`; non-trivial = >=2 values, or a non-default spelling, or touching tokens; cases are distinct by construction",
+        rule: "streams of <=2 values over the 80-value universe U1 and <=3 (thorough <=6) over a 12-value core, every legal separator (whitespace menu or touching; 5 kinds for triples, 3 for 4- and 5-streams, 2 for 6-streams), spelling deviations k=0,1 (thorough <=3, and 4 on the core) per value from the whitespace/escape/number menus; size ladders to 8193 bytes/members/values, and 65535..65537 characters, elements, members, values and digits; a decimal grid of 36 mantissas (thorough ~1150: every 1..3-digit mantissa and the neighbours of 2^24..2^64 and 10^15..10^19) x every exponent -345..310 x 2 spellings; a position grid: 13 atoms (all types, exponent forms, a 20-digit integer, a string spelled like the start of a literal) at every position (only/first/last/middle element or member) of every nesting shape of depth <=3 (thorough 4), members named by each of 10 names (empty, literal-like, number-like, with blank, quote, line feed, non-ASCII), compact and indented, and as `value atom value`; non-trivial = >=2 values, or a non-default spelling, or touching tokens; cases are distinct by construction",
         explanation: "bounded-exhaustive enumeration of conforming serialisations; jawk (no options) is run on each and stdout is read back with an independent strict RFC 8259 reader and compared value by value with the reference parse of the input",
         assumptions,
-        guards: vec!["decimal-grid", "size-thresholds", "touching-tokens", "upper-case-exponent", "escape-variant", "multi-value", "depth-64", "position-grid"],
+        guards: vec!["decimal-grid", "size-thresholds", "touching-tokens", "upper-case-exponent", "escape-variant", "multi-value", "depth-64", "position-grid", "sixty-five-thousand"],
         budget_s: (100, 1500),
         single_worker: false,
         run,
@@ -461,7 +461,38 @@ fn run(ctx: &mut Ctx) {
             }
         }
     }
-    ctx.level_done("F:size-thresholds(strings,containers,streams-to-8193;numbers-to-400-digits)");
+    // counters that are narrower than what the input can reach: 2^16 of everything that is cheap to produce
+    for n in [65535usize, 65536, 65537] {
+        if !ctx.mine() {
+            continue;
+        }
+        ctx.guard("sixty-five-thousand");
+        let body = "a".repeat(n - 1);
+        let sv = V::Str(format!("{body}\u{e9}"));
+        check(ctx, format!("\"{body}\u{e9}\" 1"), &[&sv, &V::int(1)], true);
+        let arr = V::Arr((0..n).map(|i| V::int((i % 10) as i128)).collect());
+        let atxt = format!("[{}]", (0..n).map(|i| (i % 10).to_string()).collect::<Vec<_>>().join(","));
+        check(ctx, format!("{atxt}\n[]"), &[&arr, &V::Arr(vec![])], true);
+        let obj = V::Obj((0..n).map(|i| (format!("k{i}"), V::Null)).collect());
+        let otxt = format!("{{{}}}", (0..n).map(|i| format!("\"k{i}\":null")).collect::<Vec<_>>().join(", "));
+        check(ctx, otxt, &[&obj], true);
+        // n values, one per line / all on one line
+        for sep in ["\n", " "] {
+            let vals: Vec<V> = (0..n).map(|i| V::int((i % 7) as i128)).collect();
+            let txt = vals.iter().map(to_text).collect::<Vec<_>>().join(sep);
+            let refs: Vec<&V> = vals.iter().collect();
+            check(ctx, txt, &refs, true);
+        }
+        // a number of n digits (nearest double, finite only with a fraction point in front)
+        let lit = format!("0.{}1", "0".repeat(n.min(70000)));
+        if let Ok(f) = lit.parse::<f64>() {
+            if f.is_finite() {
+                let v = json::parse_str(&lit);
+                check(ctx, format!("{lit} 2"), &[&v, &V::int(2)], true);
+            }
+        }
+    }
+    ctx.level_done("F:size-thresholds(strings,containers,streams-to-8193-and-around-65536;numbers-to-400-digits)");
 
     // level G: the decimal grid. Every mantissa of a fixed list (1..19 significant digits) at every power of ten the
     // double range knows, in two spellings, 128 numbers per run: "every other number as the nearest double".
